@@ -157,6 +157,7 @@ type Bounds struct {
 	wfMemo     map[*ssa.Function]bool
 	mwMemo     map[string]bool
 	roMemo     map[*ssa.Function]bool
+	neMemo     map[*ssa.Function]bool // noElemWrites
 	raw        map[*ssa.Function]*boundsFn
 	symRng     map[string]ival
 	outOfScope []string
@@ -165,7 +166,7 @@ type Bounds struct {
 func newBounds(P *Program) *Bounds {
 	B := &Bounds{P: P, fns: map[*ssa.Function]*boundsFn{}, callers: map[*ssa.Function][]ssa.CallInstruction{},
 		addrTkn: map[*ssa.Function]bool{}, retRng: map[*ssa.Function]*ival{}, retProg: map[*ssa.Function]bool{},
-		wfMemo: map[*ssa.Function]bool{}, mwMemo: map[string]bool{}, symRng: map[string]ival{}, roMemo: map[*ssa.Function]bool{}, raw: map[*ssa.Function]*boundsFn{}}
+		wfMemo: map[*ssa.Function]bool{}, mwMemo: map[string]bool{}, symRng: map[string]ival{}, roMemo: map[*ssa.Function]bool{}, neMemo: map[*ssa.Function]bool{}, raw: map[*ssa.Function]*boundsFn{}}
 	for _, fn := range P.LibFuncs(true) {
 		for _, b := range fn.Blocks {
 			for _, ins := range b.Instrs {
@@ -372,6 +373,11 @@ func (bf *boundsFn) affOf1(v ssa.Value) aff {
 			r := bf.affOf(x.X)
 			if bf.fits(r, x.Type()) {
 				return r
+			}
+			if typeRange(x.Type()).lo == 0 && bf.rangeOfAff(r).lo >= 0 {
+				// truncating a non-negative value to an unsigned type can only
+				// make it smaller: result ≤ operand
+				bf.global = append(bf.global, r.add(affAtom(ssa.Value(x)), -1))
 			}
 		}
 	case *ssa.ChangeType:
